@@ -3,6 +3,7 @@ CONSTANTS
   File <- FilesE
   FDataSeq <- DataE
   FOther <- OtherE
+  FSplit <- SplitE
   Caps <- GenCaps
 VIEW FocusView
 INVARIANT EmitAll
